@@ -242,6 +242,13 @@ class Model:
             if ifs:
                 guard = render(ifs[0].get('cond'), f)
             d.update(summary='call', call_fn=c['fn'], obj=obj, bound=bound, guard=guard)
+            # a lambda that does nothing but forward to one method (`[&o, i](u16 v) { o.M(i, v); }`) is the same
+            # binding as std::bind(&C::M, &o, i, _1)
+            if guard is None and len(stmts) == 1 and obj is not None:
+                st = stmts[0]
+                inner = unwrap_casts(st.get('e')) if st.get('k') == 'return' else unwrap_casts(st)
+                if inner is c and all(b is not None for b in bound):
+                    return {'kind': 'method', 'fn': c['fn'], 'obj': obj, 'bound': bound, 'line': line, 'via_lambda': fid}
             return d
         d['summary'] = 'other'
         return d
